@@ -355,7 +355,7 @@ Qed.
 (* the common front part of the two text-level theorems: the tokens the models are given *)
 Lemma defs_run dl l tail :
   Forall defn_ok dl -> map snd l = defs_lex dl -> Forall (fun p => hws (fst p)) l -> sep_ok l -> hws tail ->
-  exists m, next_results (length (render l tail) + 3)
+  exists m, next_results (length (render l tail) + margin)
               {| buf := {| rest := render l tail; lastByte := None; lastRune := None; failing := false |}; errs := [] |}
             = res (dall (map bdn dl)) (NF [] :: repeat (NF []) m) /\ length (dall (map bdn dl)) <= length (render l tail).
 Proof.
@@ -370,7 +370,7 @@ Proof.
   { apply (f_equal (@length nres)) in Htoks. now rewrite !map_length in Htoks. }
   assert (Hlen : length l <= length (render l tail)).
   { clear -Hlex. induction Hlex as [|[ws x] r _ _ IH]; cbn [length render]; [lia|]. rewrite !app_length. destruct x; cbn [text_of length]; lia. }
-  destruct m as [|m]; [lia|]. exists m. rewrite Hrun, Htoks. split; [reflexivity|lia].
+  destruct m as [|m]; [pose proof margin_ge; lia|]. exists m. rewrite Hrun, Htoks. split; [reflexivity|lia].
 Qed.
 
 (* C11 on structs and messages, end to end *)
@@ -380,7 +380,7 @@ Theorem read_defs : forall dl l tail,
 Proof.
   intros dl l tail Hok Hl Hws Hsep Ht. destruct (defs_run dl l tail Hok Hl Hws Hsep Ht) as (m & Hrun & Hlen).
   unfold read_file. rewrite Hrun. pose proof (proj2 (dneed_le (map bdn dl))) as Hneed.
-  set (n := length (render l tail) + 3) in *.
+  set (n := length (render l tail) + margin) in *.
   replace (2 * n + 8) with (dneed (map bdn dl) + (2 * n + 8 - dneed (map bdn dl))) by lia.
   apply (top_defs (map bdn dl) _ file0 (repeat (NF []) m) tok0 (bdn_ok dl Hok)).
 Qed.
@@ -392,7 +392,7 @@ Theorem format_defs : forall dl l tail,
 Proof.
   intros dl l tail Hok Hl Hws Hsep Ht. destruct (defs_run dl l tail Hok Hl Hws Hsep Ht) as (m & Hrun & Hlen).
   unfold format. rewrite Hrun. pose proof (proj1 (dneed_le (map bdn dl))) as Hneed.
-  set (n := length (render l tail) + 3) in *.
+  set (n := length (render l tail) + margin) in *.
   replace (2 * n + 8) with (dfneed (map bdn dl) + (2 * n + 8 - dfneed (map bdn dl))) by lia.
   apply (fmt_defs (map bdn dl) _ [] false (repeat (NF []) m) tok0).
 Qed.
